@@ -72,7 +72,10 @@ pub fn attribute_panic(msg: &str, loc: &str) -> &'static str {
     if msg.contains("busy loop") {
         return "C06";
     }
-    if msg.contains("not requested") || msg.contains("Can't handle command") || msg.contains("Can't change connection state") {
+    // the manager's own code (per-peer records and the session): whatever the message says, a
+    // panic there is a peer event sequence that brought the manager down
+    let manager_code = (loc.ends_with("/peer.rs") || loc.contains("/peer.rs:") || loc.contains("/session.rs")) && !msg.contains("tracker");
+    if msg.contains("not requested") || msg.contains("Can't handle command") || msg.contains("Can't change connection state") || manager_code {
         "C12"
     } else if loc.contains("connection.rs") || msg.contains("cannot advance") || loc.contains("bytes") {
         "C06"
